@@ -71,6 +71,7 @@ theorem filter_succ_length (k : Key) (log : List (Tid × Res)) :
       | misuse => simp [isSucc] at he
       | touched _ => simp [isSucc] at he
       | broken _ => simp [isSucc] at he
+      | sized _ => simp [isSucc] at he
     · exact ih
 
 /-- the part of the invariant the winner count needs -/
@@ -110,6 +111,7 @@ theorem one_winner_core {rule} {L : LSt} {log : List (Tid × Res)} (g : Good rul
     | misuse => simp [isSucc] at hs
     | touched _ => simp [isSucc] at hs
     | broken _ => simp [isSucc] at hs
+    | sized _ => simp [isSucc] at hs
   have hle : (s.log.filter (isSucc k)).length ≤ 1 := by
     rw [← filter_succ_length]
     refine length_le_one_of_all_eq hnd ?_
@@ -140,6 +142,7 @@ theorem one_winner_core {rule} {L : LSt} {log : List (Tid × Res)} (g : Good rul
     | misuse => simp [isIns] at hi
     | touched _ => simp [isIns] at hi
     | broken _ => simp [isIns] at hi
+    | sized _ => simp [isIns] at hi
   obtain ⟨n, hw, hkn⟩ := hnode
   rw [h.wins] at hw
   simp only [List.mem_filterMap] at hw
@@ -160,6 +163,7 @@ theorem one_winner_core {rule} {L : LSt} {log : List (Tid × Res)} (g : Good rul
     | misuse => simp [succNode] at hsn
     | touched _ => simp [succNode] at hsn
     | broken _ => simp [succNode] at hsn
+    | sized _ => simp [succNode] at hsn
   have : 0 < (s.log.filter (isSucc k)).length := List.length_pos_of_mem hin
   omega
 
